@@ -21,6 +21,7 @@ CHECKS = {
     "C11": ("C", "5 C11", "real Normalize fed with synthetic contract-abiding histories from abstract concurrent emitters (incl. orders runner::Basic never produces), slow inner writer; losslessness, immediate forwarding, maximal progress after every call, final shape"),
     "C12": ("C", "5 C12", "real Summarize (alone, inside/outside Repeat, inside FailOnSkipped, outside Normalize) fed with synthetic histories; all getters, steps/scenarios stats and the parsed summary text compared with an independent fold over the stream the inner writer received"),
     "C13": ("C", "5 C13", "real FailOnSkipped / Repeat / Tee / Or and nestings fed with contract-abiding and arbitrary (shuffled, truncated, duplicated) streams; recording inner writers (independently slow on each side)"),
+    "C20": ("T", "5 C20", "real tracing integration (global subscriber, Collector, span-close handshake) with 1-8 scenarios logging concurrently before and after await points, retries, slow and failing callbacks; one simulated run per process; each emitted token must arrive exactly once as a Log event of the emitting attempt between the emitter's Started and result events"),
 }
 
 NOT_APPLICABLE = {
